@@ -406,7 +406,10 @@ template<class T> void predicatesFor(vrt::Case& c, int a, int b, int lo0, int hi
         else if (shareCell)
           vrt::expect(isHull, "range.expandWith", ty + ":overlap", [&] { return ys + " expandWith => [" + str(e.begin()) + "," + str(e.end()) + "[ expected the hull"; });
         else if (rel == "touch")
-          vrt::expect(isHull || unchanged, "range.expandWith", ty + ":touch", [&] { return ys + " expandWith => [" + str(e.begin()) + "," + str(e.end()) + "["; });
+          // two non-empty half-open intervals that share a bound: their union is the interval between the outer
+          // bounds, so the expansion is the hull (the in-source comment speaks of "overlap" loosely; the bound tests
+          // of the implementation, and MultiRange-free point-set arithmetic, merge touching ranges)
+          vrt::expect(isHull, "range.expandWith", ty + ":touch", [&] { return ys + " expandWith => [" + str(e.begin()) + "," + str(e.end()) + "[ expected the hull (touching intervals)"; });
         else
           vrt::expect(unchanged, "range.expandWith", ty + ":apart", [&] { return ys + " expandWith => [" + str(e.begin()) + "," + str(e.end()) + "[ expected unchanged"; });
       }
@@ -468,7 +471,7 @@ int main(int argc, char** argv)
   meta.assumptions = {
     "integral end points (also for double), so that the bitset model is exact",
     "universe 0..24 (0..6 exhaustive); signed coordinates below zero only for the Range predicates",
-    "expandWith on ranges that only touch may return the hull or leave the range unchanged (documentation and point-set reading differ); overlap/contains with an empty operand are not judged",
+    "expandWith with an empty operand may return the hull or leave the range unchanged; overlap/contains with an empty operand are not judged",
     "filterWithin on a MultiRange is judged against the segmentation observed just before the call (touching ranges may be stored merged or separate)",
   };
   meta.requiredClauses = { "multirange.union", "multirange.disjoint-ascending", "multirange.totalLength", "copy.independent", "rangeset.multiset", "range.overlap", "range.sliceWith", "range.expandWith", "range.shift" };
